@@ -1,6 +1,7 @@
 package props
 
 import (
+	"bytes"
 	"context"
 	"errors"
 	"fmt"
@@ -316,6 +317,203 @@ func init() {
 		},
 		RequiredOutcomes: []string{"completed", "aborted-by-client", "handler-failed", "foreign-message"},
 	})
+}
+
+// c13RunWhileHeld: the handler keeps looking at a payload (CopyReader.Msg) it was handed by Read while OTHER
+// connections of the same server are active: connection A may have completed COPYs before (n bytes each) and sends
+// a message while B's handler holds its payload; or both are inside a COPY at the same time. A payload is
+// byte-exact when it is handed over and still byte-exact when the handler is done looking at it (before its next
+// Read), whatever the neighbours do meanwhile.
+func c13RunWhileHeld(before []int, payload int, meanwhile string) explore.Result {
+	var res explore.Result
+	res.Outcome = "completed"
+	res.Key = fmt.Sprint("while-held", before, payload, meanwhile)
+	var during func(who string)
+	var bad []string
+	var seen = map[string][]string{}
+	parse := func(ctx context.Context, q string) (wire.PreparedStatements, error) {
+		who := string(wire.ClientParameters(ctx)["user"])
+		return wire.Prepared(wire.NewStatement(func(ctx context.Context, w wire.DataWriter, params []wire.Parameter) error {
+			if !strings.HasPrefix(q, "copy") {
+				return w.Complete("SELECT 0")
+			}
+			cr, err := w.CopyIn(wire.TextFormat)
+			if err != nil {
+				return err
+			}
+			n := 0
+			for {
+				err := cr.Read()
+				if err == io.EOF {
+					return w.Complete(fmt.Sprintf("COPY %d", n))
+				}
+				if err != nil {
+					return err
+				}
+				n++
+				handed := string(cr.Msg)
+				seen[who] = append(seen[who], handed)
+				if during != nil {
+					during(who)
+				}
+				if string(cr.Msg) != handed {
+					bad = append(bad, fmt.Sprintf("connection %s: payload %d was handed over as %.40q... (%d bytes) and read %.60q... when the handler had finished looking at it", who, n, handed, len(handed), string(cr.Msg)))
+				}
+			}
+		}, wire.WithColumns(wire.Columns{{Name: "line", Oid: 25}}))), nil
+	}
+	srv, err := harness.NewServer(parse)
+	if err != nil {
+		res.Engine = err.Error()
+		return res
+	}
+	defer srv.Stop()
+	a, b := srv.Connect(), srv.Connect()
+	a.Step(pgproto.Startup("user", "A"))
+	b.Step(pgproto.Startup("user", "B"))
+	pay := func(c byte, n int) []byte { return append(bytes.Repeat([]byte{c}, n-1), '\n') }
+	want := map[string][]string{}
+	for _, n := range before {
+		if n < 0 { // a COPY on A that the client aborts
+			a.Step(pgproto.Query("copy"))
+			a.Step(pgproto.CopyData(pay('a', -n)))
+			a.Step(pgproto.CopyFail("changed my mind"))
+			want["A"] = append(want["A"], string(pay('a', -n)))
+			continue
+		}
+		a.Step(pgproto.Query("copy"))
+		a.Step(pgproto.CopyData(pay('a', n)))
+		a.Step(pgproto.CopyDone())
+		want["A"] = append(want["A"], string(pay('a', n)))
+	}
+	var outA []byte
+	switch meanwhile {
+	case "A sends a query", "A sends a long query", "A sends Parse + Sync":
+		during = func(who string) {
+			if who != "B" {
+				return
+			}
+			during = nil
+			switch meanwhile {
+			case "A sends a query":
+				outA, _ = a.Step(pgproto.Query("SELECT 'zzzzzzzzzzzzzzzz'"))
+			case "A sends a long query":
+				outA, _ = a.Step(pgproto.Query("SELECT '" + strings.Repeat("z", 700) + "'"))
+			default:
+				outA, _ = a.Step(pgproto.Cat(pgproto.Parse("zzzzzzzz", "SELECT zzzzzzzzzzzzzzzzzzzzzzzzzzzzzzzzzzzzzzzzzzzz"), pgproto.Sync()))
+			}
+		}
+		b.Step(pgproto.Query("copy"))
+		b.Step(pgproto.CopyData(pay('B', payload)))
+		b.Step(pgproto.CopyData(pay('C', payload/2+1)))
+		outB, _ := b.Step(pgproto.CopyDone())
+		want["B"] = []string{string(pay('B', payload)), string(pay('C', payload/2+1))}
+		if k := harness.Kinds(outB); k != "CZ" {
+			res.Fail("reply-sequence", fmt.Sprintf("B's CopyDone answered %q", k))
+		}
+		if k := harness.Kinds(outA); !strings.HasSuffix(k, "Z") || strings.Contains(k, "E") {
+			res.Fail("reply-sequence", fmt.Sprintf("A's message while B's handler held a payload was answered %q", k))
+		}
+	case "A starts a COPY of its own", "A starts and finishes a COPY of its own":
+		during = func(who string) {
+			if who != "B" {
+				return
+			}
+			during = nil
+			a.Step(pgproto.Query("copy"))
+			a.Step(pgproto.CopyData(pay('x', payload+7)))
+			want["A"] = append(want["A"], string(pay('x', payload+7)))
+			if meanwhile == "A starts and finishes a COPY of its own" {
+				a.Step(pgproto.CopyDone())
+			}
+		}
+		b.Step(pgproto.Query("copy"))
+		b.Step(pgproto.CopyData(pay('B', payload)))
+		b.Step(pgproto.CopyData(pay('C', payload/2+1)))
+		b.Step(pgproto.CopyDone())
+		want["B"] = []string{string(pay('B', payload)), string(pay('C', payload/2+1))}
+		if meanwhile == "A starts a COPY of its own" {
+			a.Step(pgproto.CopyDone())
+		}
+	}
+	for _, who := range []string{"A", "B"} {
+		if !sameStrings(seen[who], want[who]) {
+			res.Fail("copy-data-mismatch", fmt.Sprintf("connection %s: its handler was handed %d payloads %.80q, the client had sent %d payloads %.80q", who, len(seen[who]), seen[who], len(want[who]), want[who]))
+		}
+	}
+	if len(bad) > 0 {
+		res.Fail("copy-data-mismatch", fmt.Sprintf("A completed COPYs of %v bytes before; then %s while B's handler was looking at a payload of %d bytes: %s", before, meanwhile, payload, strings.Join(bad, "; ")))
+	}
+	res.Trans = []string{"copy|neighbour active|payload intact"}
+	return res
+}
+
+// c13RunLateFailure: the statement reports its outcome through Complete and THEN fails (a deferred Complete that
+// runs before the abort error is returned; a handler that completes at CopyDone and fails while storing the rows):
+// the failure is still the statement's failure - exactly one ErrorResponse and one ReadyForQuery end the cycle.
+func c13RunLateFailure(extended bool, end string, chunks int) explore.Result {
+	var res explore.Result
+	res.Outcome = "handler-failed"
+	res.Key = fmt.Sprint("late-failure", extended, end, chunks)
+	parse := func(ctx context.Context, q string) (wire.PreparedStatements, error) {
+		if q != "copy" {
+			return wire.Prepared(wire.NewStatement(func(ctx context.Context, w wire.DataWriter, p []wire.Parameter) error { return w.Complete("OK") })), nil
+		}
+		return wire.Prepared(wire.NewStatement(func(ctx context.Context, w wire.DataWriter, p []wire.Parameter) (err error) {
+			cr, err := w.CopyIn(wire.TextFormat)
+			if err != nil {
+				return err
+			}
+			n := 0
+			for {
+				rerr := cr.Read()
+				if rerr == io.EOF {
+					if cerr := w.Complete(fmt.Sprintf("COPY %d", n)); cerr != nil {
+						return cerr
+					}
+					return errors.New("storing the rows failed after the copy was completed")
+				}
+				if rerr != nil {
+					w.Complete(fmt.Sprintf("COPY %d", n)) //nolint:errcheck (the row count so far, as a deferred Complete would report it)
+					return rerr
+				}
+				n++
+			}
+		}, wire.WithColumns(wire.Columns{{Name: "line", Oid: 25}}))), nil
+	}
+	one, err := harness.StartOne(parse)
+	if err != nil {
+		res.Engine = err.Error()
+		return res
+	}
+	defer one.Stop()
+	one.Step(pgproto.Startup("user", "u"))
+	if extended {
+		one.Step(pgproto.Cat(pgproto.Parse("", "copy"), pgproto.Bind("", "", nil, nil, nil), pgproto.Execute("", 0)))
+	} else {
+		one.Step(pgproto.Query("copy"))
+	}
+	for i := 0; i < chunks; i++ {
+		one.Step(pgproto.CopyData([]byte("line\n")))
+	}
+	last := pgproto.CopyDone()
+	if end == "CopyFail" {
+		last = pgproto.CopyFail("changed my mind")
+	}
+	if extended {
+		last = pgproto.Cat(last, pgproto.Sync())
+	}
+	out, _ := one.Step(last)
+	k := harness.Kinds(out)
+	if strings.Count(k, "E") != 1 || strings.Count(k, "Z") != 1 || !strings.HasSuffix(k, "Z") {
+		res.Fail("copy-reply", fmt.Sprintf("a statement that calls Complete and then fails (%d chunks, the client ends the stream with %s, extended protocol: %v): the cycle ended with %q; expected exactly one ErrorResponse and one ReadyForQuery", chunks, end, extended, k))
+	}
+	out, _ = one.Step(pgproto.Query("ok"))
+	if k := harness.Kinds(out); k != "CZ" {
+		res.Fail("copy-reply", fmt.Sprintf("after that cycle a plain query is answered %q", k))
+	}
+	res.Trans = []string{"copying|completed then failed|error + ready"}
+	return res
 }
 
 func c13Depth(tier string) int {
@@ -682,6 +880,30 @@ func c13Wide(emit explore.Emit) {
 }
 
 func c13Enumerate(tier string, emit explore.Emit) {
+	for _, extended := range []bool{false, true} {
+		for _, end := range []string{"CopyDone", "CopyFail"} {
+			for chunks := 0; chunks <= 2; chunks++ {
+				extended, end, chunks := extended, end, chunks
+				emit(explore.Case{Family: "late-failure", Size: 4,
+					Desc: func() any {
+						return map[string]any{"extended_protocol": extended, "client_ends_with": end, "chunks_before": chunks, "handler": "calls Complete, then returns an error"}
+					},
+					Run: func() explore.Result { return c13RunLateFailure(extended, end, chunks) }})
+			}
+		}
+	}
+	for _, before := range [][]int{nil, {8}, {40}, {300}, {8, 40}, {-8}, {-40, 8}, {5000}} {
+		for _, payload := range []int{4, 64, 1000, 6000} {
+			for _, meanwhile := range []string{"A sends a query", "A sends a long query", "A sends Parse + Sync", "A starts a COPY of its own", "A starts and finishes a COPY of its own"} {
+				before, payload, meanwhile := before, payload, meanwhile
+				emit(explore.Case{Family: "payload-while-held", Size: 5,
+					Desc: func() any {
+						return map[string]any{"copies_completed_on_A_before (bytes, negative = aborted)": before, "payload_bytes_on_B": payload, "while_B_handler_holds_it": meanwhile}
+					},
+					Run: func() explore.Result { return c13RunWhileHeld(before, payload, meanwhile) }})
+			}
+		}
+	}
 	c13Wide(emit)
 	c13Binary(emit)
 	c13BinaryCut(emit)
